@@ -484,6 +484,8 @@ fn expr(e: &syn::Expr) -> String {
     },
     syn::Expr::Reference(r) => expr(&r.expr),
     syn::Expr::Paren(p) => expr(&p.expr),
+    // the empty array literal `[]` (an empty slice when borrowed)
+    syn::Expr::Array(a) if a.elems.is_empty() => "ECall \"slice:empty\" []".to_string(),
     // `e?`: match e { Ok(v) => v, Err(x) => return Err(From::from(x)) }
     syn::Expr::Try(t) => format!(
       "EMatch ({}) [(PCtor \"Ok\" [\"__ok\"], EVar \"__ok\"); (PCtor \"Err\" [\"__err\"], EBlock (Blk [SReturn (Some (ECall \"Err\" [ECall \"From::from\" [EVar \"__err\"]]))] None))]",
